@@ -576,6 +576,8 @@ def trinterp2(start, end, s=None):
     :seealso: :func:`~spatialmath.base.transforms3d.trinterp`
 
     """
+    if isinstance(s, np.floating):
+        s = float(s)  # (a NumPy float16 / float32 scalar would keep s * theta in its own precision)
     if base.ismatrix(end, (2, 2)):
         # SO(2) case
         if start is None:
